@@ -32,9 +32,7 @@ def run_sym(c, lines, want_img, base=0):
             key = "%s:%s:%s" % (case["expect"], (ev.get("bad") or ["?"])[0].split(":")[0], shape)
             seen[key] = seen.get(key, 0) + 1
             if seen[key] <= 1 and len(seen) <= 12:
-                r2, _ = c.run_worker("p7sym", [(sc, d[sc])], parallel=1, env=env)
-                if (r2.get(sc) or [{}])[0].get("agree", True):
-                    raise vf.FrameworkError("disagreement not reproduced")
+                c.reproduce("p7sym", sc, lambda evs: any(not e.get("agree", True) for e in evs), env=env)
             c.report(key, "; ".join(ev.get("bad") or []), dict({"case": case, "results": ev.get("results")}, **c.rp("p7sym", d[sc])))
     for sc, dd in deaths.items():
         c.report("death:%s" % dd["kind"], "process died verifying a blob", {"case": json.loads(d[sc]), "death": dd})
